@@ -33,6 +33,11 @@ ASSUMPTIONS = [
 DRIVER = "source_finder.SourceFinder.find_sources_in_image"
 
 MUTANTS = [
+    ("lower amplitude bound of negative sources above the peak",
+     "AegeanTools/source_finder.py",
+     "                    amp * 1.05 - innerclip * rmsimg[xo, yo],\n",
+     "                    amp * 1.05 + innerclip * rmsimg[xo, yo],\n",
+     "C01-R16"),
     ("errors from a Jacobian that is not scaled by the noise",
      "AegeanTools/fitting.py",
      "            J = lmfit_jacobian(params, mask[0], mask[1], B=B, errs=errs)",
@@ -238,6 +243,10 @@ def run(ctx):
     from .c04 import find_roles, r4_r5
     fit_, wrapper_, _jac, _dfun = find_roles(prog)
     r4_r5(ctx, prog, fit_, wrapper_, r4="C01-R14", r5="C01-R14")
+    # negative sources are modelled as the mirror image of positive ones
+    # (shared with C13-R3): same relation between peak and amplitude bounds
+    from .c13 import r3 as mirror_branches
+    mirror_branches(ctx, prog, rule="C01-R16")
     n15 = link.argument_binding(ctx, "C01-R15", roots=[DRIVER],
                                 what="blind finding call graph")
     ctx.floor("C01-R15", n15, 20, "internal calls reachable from blind "
